@@ -1,4 +1,4 @@
-(** One extraction of every executable model. ExtrOcamlBasic only: bool, option, list, prod, unit,
+(** Extraction of the rbuf engine model. ExtrOcamlBasic only: bool, option, list, prod, unit,
     sumbool map to OCaml's; N / positive / nat stay Coq inductives. No Extract Constant.
     Run from /verif/ocaml/gen (the file is written to the current directory). *)
 From Coq Require Import Extraction ExtrOcamlBasic.
